@@ -20,3 +20,16 @@ NOT_APPLICABLE = {
     "C18": "lifting: 14.5k generated lines driven by operands.next(), HashMap entry API, closures and panics-as-control-flow; neither installed verifier can take lift::convert and a per-arm spec would be regenerated from the same table as the code (DESIGN.md §6)",
     "C20": "process behaviour of rspirv-dis (exit status, stdout, file I/O, clap) is outside function contracts; its library-level content (panic freedom of load + disassemble) is decided under C04 (DESIGN.md §6)",
 }
+
+PROPS["C08"] = {
+    "title": "spirv enums and bit-masks map numbers and names exactly as declared",
+    "units": {"quick": ["spirv_enums"], "thorough": ["spirv_enums"]},
+    "level": "proof",
+    "technique": "Verus contracts on all 45 extracted from_u32 (transmute precondition = declared discriminant), compute lemmas over the extracted FromStr tables; Kani complete proofs for bitflags from_bits",
+    "design_ref": "DESIGN.md §4 C08",
+    "explanation": "All 45 `from_u32` are extracted verbatim each run; the transmute in every arm carries the precondition "
+                   "`declared_T(n)` generated from the enum declaration, and the postcondition states Some iff declared and "
+                   "value-as-u32 == n for all 2^32 n. Name tables are lifted arm by arm into spec functions and every variant "
+                   "and alias is proved to parse back.",
+    "assumptions": [],
+}
